@@ -518,7 +518,7 @@ fn one_case(d: &mut Draw, thorough: bool) -> Outcome {
                 continue;
             }
             let Some(dst) = dst_of(f) else { continue };
-            if !dst.is_file() {
+            if (f.owner == Owner::Root || reachable.contains(f)) && !dst.is_file() {
                 return fail(
                     "build/source-not-emitted",
                     format!("{} was not emitted ({} does not exist)", f.show(), s(&dst)),
